@@ -18,10 +18,10 @@ import numpy as np
 
 from harness import common
 
-GEN_MODULES = ['table']
-MODEL_TARGETS = ['model/M_Table.vo']
+GEN_MODULES = ['table', 'tablerec']
+MODEL_TARGETS = ['model/M_Table.vo', 'model/M_TableRec.vo']
 PROOF_TARGETS = ['proofs/P_Table.vo', 'proofs/P_TableRefine.vo', 'proofs/P_TableThm.vo', 'proofs/P_TableSim5.vo',
-                 'proofs/P_TableFull.vo', 'proofs/P_TableClosed.vo', 'proofs/P_TableRows.vo', 'proofs/P_TableFindings.vo']
+                 'proofs/P_TableFull.vo', 'proofs/P_TableClosed.vo', 'proofs/P_TableRows.vo', 'proofs/P_TableFindings.vo', 'proofs/P_TableRec.vo']
 LEVEL = 'proof'
 RULE = ('operation sequences over all public operations of DataFieldRecordArray (constructor from dict with '
         'keep/conversions/copy, copy, get_selection, set_selection, append, append_field, __setitem__, '
@@ -755,6 +755,8 @@ def run_sequence(ctx, DFRA, ops_or_gen, maxlen=None, stop_on_fail=False, valdom=
             break
     if getattr(impl, 'ref_gave_up', 0):
         ctx.count('reference_bookkeeping_gave_up', impl.ref_gave_up)
+    if len(RECOBS) < REC_LIMIT[0] and len(ops) <= 20 and all(len(o) <= 60 for o in impl.objs):
+        RECOBS[id(trace)] = rec_observe(impl)
     return ops, trace
 
 
@@ -1316,6 +1318,134 @@ def type_probes(ctx, DFRA):
                           case={'probe': what}, predicate='a refused call changes nothing')
 
 
+# ------------------------------------------------------------------ extension: as_numpy_record_array
+REC_IMPORTS = IMPORTS.replace('M_Table.', 'M_Table M_TableRec.')
+RECOBS = {}
+REC_LIMIT = [0]
+
+
+def rec_observe(impl):
+    """as_numpy_record_array of every live table: (outcome, [(name, dtype tag)], rows)"""
+    out = []
+    for o in impl.objs:
+        try:
+            r = o.as_numpy_record_array()
+            names = list(r.dtype.names or [])
+            out.append(('Ok', [(fnum(n), DTN.get(r.dtype[n], -1)) for n in names],
+                        [impl.enc(list(row)) for row in r.tolist()] if names else [[] for _ in range(len(r))]))
+        except (KeyError, ValueError, TypeError, IndexError) as ex:
+            out.append((type(ex).__name__, None, None))
+    return out
+
+
+def canon_rec(v):
+    if isinstance(v, tuple) and v[0] == 'Ok':
+        names, rows = v[1]
+        return ('Ok', [tuple(p) for p in names], [list(r) for r in rows])
+    if isinstance(v, tuple) and v[0] == 'Err':
+        return (v[1], None, None)
+    return ('unparsed', repr(v)[:100], None)
+
+
+def rec_sequences(ctx, seqs):
+    """record arrays at the end of whole operation sequences: real class vs model `rec_world (run ...)`"""
+    todo = [(ops, RECOBS[id(tr)]) for ops, tr in seqs if id(tr) in RECOBS]
+    if not todo or not ctx.model_ok:
+        return
+    exprs = ['rec_world (run empty_world ' + g_list(ops, lambda o: '(' + g_op(o) + ')') + ')' for ops, _ in todo]
+    try:
+        vals = common.coq_eval('c16rec', REC_IMPORTS, exprs, timeout=900)
+    except RuntimeError as ex:
+        ctx.broken.append({'kind': 'model-eval', 'error': str(ex)[:1500]})
+        return
+    for (ops, imp), v in zip(todo, vals):
+        ctx.corr_cases += 1
+        ctx.count('record_array_sequences')
+        mod = [canon_rec(x) for x in v]
+        imp_c = [(a, None if b is None else [tuple(p) for p in b], c) for a, b, c in imp]
+        if mod != imp_c:
+            ctx.disagree('DataFieldRecordArray.as_numpy_record_array', {'ops': ops, 'rec': True}, imp_c, mod,
+                         'record arrays at the end of the sequence differ')
+
+
+def rec_direct_cases(rng, n):
+    """tables whose private state is set directly: mostly well-formed, plus malformed ones (a listed
+    field without data, a column of the wrong length, a one-element column, no fields with len > 0)"""
+    cases = []
+    for k in range(n):
+        nf = rng.randint(0, 4)
+        ln = rng.choice([0, 1, 2, 3, 5])
+        names = rng.sample(range(8), nf)
+        cols = [(nm, (rng.randrange(4), rand_vals(rng, ln))) for nm in names]
+        fl = list(names)
+        kind = rng.choice(['ok', 'ok', 'ok', 'missing', 'short', 'one', 'long', 'reorder', 'lenonly'])
+        if kind == 'missing':
+            fl.insert(rng.randint(0, len(fl)), rng.choice([x for x in range(8) if x not in names]))
+        elif kind in ('short', 'one', 'long') and cols:
+            j = rng.randrange(len(cols))
+            m = {'short': max(0, ln - 1), 'one': 1, 'long': ln + 2}[kind]
+            cols[j] = (cols[j][0], (cols[j][1][0], rand_vals(rng, m)))
+        elif kind == 'reorder':
+            rng.shuffle(fl)
+            if fl and rng.random() < 0.5:
+                fl.pop()
+        elif kind == 'lenonly':
+            ln = ln + rng.choice([0, 1])
+        cases.append({'rec_direct': True, 'kind': kind, 'cols': cols, 'fnl': fl, 'len': ln})
+    return cases
+
+
+def rec_direct_run(ctx, DFRA, case):
+    o = DFRA({}, copy=False)
+    o._data_fields = {fname(nm): np.array(b[1], dtype=DT[b[0]]) for nm, b in case['cols']}
+    o._field_name_list = [fname(n) for n in case['fnl']]
+    o._len = case['len']
+    cols = {nm: b for nm, b in case['cols']}
+    wellformed = (sorted(case['fnl']) == sorted(cols) and len(set(case['fnl'])) == len(case['fnl'])
+                  and all(len(b[1]) == case['len'] for b in cols.values()))
+    try:
+        r = o.as_numpy_record_array()
+        names = list(r.dtype.names or [])
+        imp = ('Ok', [(fnum(n), DTN.get(r.dtype[n], -1)) for n in names],
+               [[int(x) for x in row] for row in r.tolist()] if names else [[] for _ in range(len(r))])
+        # independent predicate: row i is (column[i] for every listed field), broadcasting one-element columns
+        want = [[(cols[n][1][i] if len(cols[n][1]) == case['len'] else cols[n][1][0]) for n in case['fnl']]
+                for i in range(case['len'])]
+        if [p[0] for p in imp[1]] != case['fnl'] or [p[1] for p in imp[1]] != [cols[n][0] for n in case['fnl']] or imp[2] != want:
+            ctx.violation('DataFieldRecordArray.as_numpy_record_array', 'record-array-wrong',
+                          f'rows {imp[2][:3]} expected {want[:3]}', case=case, impl=imp,
+                          predicate='row i of the record array = (column[i] for every listed field)')
+    except (KeyError, ValueError, TypeError, IndexError) as ex:
+        imp = (type(ex).__name__, None, None)
+        if wellformed:
+            ctx.violation('DataFieldRecordArray.as_numpy_record_array', 'accessor-raises', f'{type(ex).__name__} on a well-formed table',
+                          case=case, impl=imp, predicate='the record array of a well-formed table exists')
+    store = g_list([b for _, b in case['cols']], g_buf)
+    flds = g_list(list(enumerate(case['cols'])), lambda p: f'({g_z(p[1][0])}, {p[0]}%nat)')
+    term = f'as_record {store} (mkobj {flds} {g_list(case["fnl"], g_z)} {g_z(case["len"])} None)'
+    return imp, term
+
+
+def rec_direct(ctx, DFRA, cases):
+    runs = [rec_direct_run(ctx, DFRA, c) for c in cases]
+    for c in cases:
+        ctx.count('record_array_direct:' + c['kind'])
+        ctx.case(c)
+    if not ctx.model_ok:
+        return
+    try:
+        vals = common.coq_eval('c16recd', REC_IMPORTS, [t for _, t in runs], timeout=600)
+    except RuntimeError as ex:
+        ctx.broken.append({'kind': 'model-eval', 'error': str(ex)[:1500]})
+        return
+    for c, (imp, _), v in zip(cases, runs, vals):
+        ctx.corr_cases += 1
+        mod = canon_rec(v)
+        imp_c = (imp[0], None if imp[1] is None else [tuple(p) for p in imp[1]], imp[2])
+        if mod != imp_c:
+            ctx.disagree('DataFieldRecordArray.as_numpy_record_array', c, imp_c, mod, 'record array of a directly built table differs')
+
+
 def cache_words():
     """deterministic words [observe; mutator; observe] for the two caches a table can carry (a sort memo, the
     indices array): for every mutator m, sort f / m (changing f where possible) / sort f, and
@@ -1393,6 +1523,8 @@ def run(ctx):
     from skyllh.core.storage import DataFieldRecordArray as DFRA
     rng = ctx.rng
     seqs = []
+    RECOBS.clear()
+    REC_LIMIT[0] = 10 ** 6
     for ops in corpus():
         seqs.append(run_sequence(ctx, DFRA, ops))
         ctx.count('corpus_sequences')
@@ -1401,6 +1533,7 @@ def run(ctx):
     for nm, ops in cache_words():
         seqs.append(run_sequence(ctx, DFRA, ops))
         ctx.count('cache_words')
+    REC_LIMIT[0] = 0
     # bounded-exhaustive
     base = ['append01', 'addcol', 'remove0', 'rename13', 'select', 'setsel0L', 'sort', 'copy', 'indices', 'setselL0',
             'selblock', 'selmask', 'copyempty', 'copyone']
@@ -1417,6 +1550,7 @@ def run(ctx):
         seqs += exhaustive(ctx, DFRA, base + ['tidy', 'convert', 'append10', 'setitem1'], 2, False)
     # random
     nrand = ctx.budget(120, 1200)
+    REC_LIMIT[0] = len(RECOBS) + ctx.budget(60, 400)
     for k in range(nrand):
         maxlen = rng.choice([3, 6, 10, 20, 40, 40])
         mp = rng.choice([0.0, 0.05, 0.15, 0.4])
@@ -1436,11 +1570,16 @@ def run(ctx):
     for ops, trace in seqs[-3:]:
         ctx.sample({'ops': [g_op(o)[:120] for o in ops[:8]], 'outcomes': [t[0] for t in trace[:8]]})
     evaluate(ctx, 'c16', seqs)
+    rec_sequences(ctx, seqs)
+    rec_direct(ctx, DFRA, rec_direct_cases(rng, ctx.budget(200, 2000)))
 
 
 def replay(ctx, rp):
     from skyllh.core.storage import DataFieldRecordArray as DFRA
     c = rp.get('case') or {}
+    if c.get('rec_direct'):
+        c['cols'] = [(n, tuple(b)) for n, b in c['cols']]
+        return rec_direct(ctx, DFRA, [c])
     ops = c.get('ops')
     if not ops:
         ctx.notes.append('replay file has no concrete input (broken obligation): re-running the full check')
@@ -1458,6 +1597,9 @@ def replay(ctx, rp):
             o['conv'] = [tuple(p) for p in o['conv']]
         o.pop('perm', None)
         return o
+    RECOBS.clear()
+    REC_LIMIT[0] = 1
     seq = run_sequence(ctx, DFRA, [fix(o) for o in ops])
     ctx.case([g_op(o) for o in seq[0]])
     evaluate(ctx, 'c16r', [seq])
+    rec_sequences(ctx, [seq])
